@@ -127,6 +127,19 @@ def run(ctx, tier):
                 if not uses and not gates:
                     continue
                 ok = bool(gates) and all(e and all(n[0] == 'agg' and n[2] == 'PlannerUninitialised' for n in e) for (_bi, e) in gates)
+                if not gates:
+                    # pattern-match gate (`let Some(pd) = &self.f else { return Err(PlannerUninitialised) }`, also on a tuple of
+                    # both fields): the None edge of a switch on the field's discriminant leads to exactly that error
+                    de = fn.discr_edges(lambda ts, F=F: bool(ts) and all(n[0] == 'field' and n[2] == F and all(q[0] == 'param' and q[1] == 1 for q in n[1]) for n in ts))
+                    none_edges = set(de.get('0', set()))
+                    if '1' in de and '0' not in de:
+                        none_edges |= de.get('otherwise', set())        # `[1: some, otherwise: none]`
+                    if none_edges:
+                        errs = _errs_from(fn, [d for (_s, d) in none_edges])
+                        gates = [(next(iter(none_edges))[0], frozenset())]
+                        ok = errs == {'PlannerUninitialised'}
+                        if not ok:
+                            gates = [(gates[0][0], T(('const', 'leads to %s' % sorted(errs))))]
                 # the gate comes first: it dominates every other use of self.<F>
                 r_gate.inst('%s: self.%s is obtained through ok_or(PlannerUninitialised)?' % (b.path, F), ok=ok, site=b.loc(gates[0][0]) if gates else b.loc(0))
                 if not ok:
